@@ -1,96 +1,49 @@
 import EaselModel.Buffer.Model
-/-! The residual duties of a caller of `esl_buffer.c` once the API contract is dropped (`SafeOp`), as a proposition and
-as the executable test that the driver (and, on the real `ESL_BUFFER`, the harness) applies before a `try…` operation.
-Core Lean only (the driver links this file). -/
+/-! What is still asked of a caller of `esl_buffer.c` once the API contract is dropped: `CallerOk`, one clause, as a
+proposition and as the executable test that the driver (and, on the real `ESL_BUFFER`, the harness) applies before a
+`tryset` operation. Core Lean only (the driver links this file). -/
 namespace EaselModel.Buffer
 
-/-- The residual duties of the caller, in terms of the current window `[base, base+n)`, cursor `base+pos`, anchor:
-* `Set(p, nused)`: `p + nused` stays within the bytes that `Get*` exposed (documented: "we parsed nused bytes of p[0..n-1]");
-* the anchor is never put ahead of the cursor: `SetOffset o` rewinding inside the window does not go before the active
-  anchor, `SetAnchor o`/`SetStableAnchor o` inside the window is at or before the cursor. Since b86a62d the code handles
-  these too (`buffer_refill` keeps everything from `min(anchor, pos)` on; before, `pos` went negative: former finding
-  `C05:anchor:ahead-of-cursor`); the model mirrors the repaired code and is compared with it exactly on such histories,
-  but the simulation relation `R` (anchor ≤ cursor) does not cover them yet.
-`SetOffset` beyond the end of a whole-input buffer is no longer a duty: since 4515997 it is answered `eslEINVAL`. -/
-def SafeOp (s : Sess) : Op → Prop
+/-- **The only call whose outcome the documentation leaves undefined**: `esl_buffer_Set(bf, p, nused)` with `p + nused`
+    beyond the bytes that the preceding `Get*` call exposed (documented: "the caller has parsed `nused` bytes of
+    `p[0..n-1]`"; the code does not check it: in a stream it answers `eslEINCONCEIVABLE` from `buffer_refill` and leaves
+    the cursor outside the window, in a whole-input buffer it answers `eslOK` with the cursor beyond the end; the next
+    read copies from outside the buffer). Every other call of the 14 operations has an outcome defined by the code for
+    every argument: anchors anywhere (`eslEINVAL` outside the window; ahead of the cursor the code copes since b86a62d),
+    `SetOffset` anywhere (`eslEINVAL` beyond the end since 4515997, or for a rewind that has left the window),
+    `RaiseAnchor` of any offset, `Read` of any count, tokens with any separator set. -/
+def CallerOk (s : Sess) : Op → Prop
   | .set k => ∀ i, s.lastp = some i → i + k ≤ s.b.n
-  | .setOffset o => ∀ x, s.b.anchor = some x → s.b.base ≤ o → s.b.base + x ≤ o
-  | .setAnchor o => s.b.hasfp = true → o ≤ s.b.base + s.b.pos ∨ s.b.base + s.b.n < o
-  | .setStableAnchor o => s.b.hasfp = true → o ≤ s.b.base + s.b.pos ∨ s.b.base + s.b.n < o
   | _ => True
 
-/-- executable form (the driver and the harness evaluate the same predicate on their own state before a `try…` op) -/
-def safeB (s : Sess) : Op → Bool
+/-- executable form (the driver and the harness evaluate the same predicate on their own state before a `tryset`) -/
+def callerOkB (s : Sess) : Op → Bool
   | .set k => match s.lastp with
     | some i => decide (i + k ≤ s.b.n)
     | none => true
-  | .setOffset o =>
-      (match s.b.anchor with
-       | some x => !decide (s.b.base ≤ o) || decide (s.b.base + x ≤ o)
-       | none => true)
-  | .setAnchor o => !s.b.hasfp || decide (o ≤ s.b.base + s.b.pos) || decide (s.b.base + s.b.n < o)
-  | .setStableAnchor o => !s.b.hasfp || decide (o ≤ s.b.base + s.b.pos) || decide (s.b.base + s.b.n < o)
   | _ => true
 
-theorem safeB_iff (s : Sess) (op : Op) : safeB s op = true ↔ SafeOp s op := by
+theorem callerOkB_iff (s : Sess) (op : Op) : callerOkB s op = true ↔ CallerOk s op := by
   cases op with
   | set k =>
-    simp only [safeB, SafeOp]
+    simp only [callerOkB, CallerOk]
     cases s.lastp with
     | none => simp
     | some i => simp
-  | setOffset o =>
-    simp only [safeB, SafeOp]
-    constructor
-    · intro h2 x hx hb
-      rw [hx] at h2
-      simp only [Bool.or_eq_true, Bool.not_eq_true', decide_eq_false_iff_not, decide_eq_true_eq] at h2
-      rcases h2 with h | h
-      · exact absurd hb h
-      · exact h
-    · intro h2
-      cases hx : s.b.anchor with
-      | none => rfl
-      | some x =>
-        simp only [Bool.or_eq_true, Bool.not_eq_true', decide_eq_false_iff_not, decide_eq_true_eq]
-        by_cases hb : s.b.base ≤ o
-        · exact Or.inr (h2 x hx hb)
-        · exact Or.inl hb
-  | setAnchor o =>
-    simp only [safeB, SafeOp, Bool.or_eq_true, Bool.not_eq_true', decide_eq_true_eq]
-    constructor
-    · rintro ((h | h) | h) hf
-      · rw [hf] at h; cases h
-      · exact Or.inl h
-      · exact Or.inr h
-    · intro h
-      cases hf : s.b.hasfp with
-      | false => exact Or.inl (Or.inl rfl)
-      | true => rcases h hf with h | h
-                · exact Or.inl (Or.inr h)
-                · exact Or.inr h
-  | setStableAnchor o =>
-    simp only [safeB, SafeOp, Bool.or_eq_true, Bool.not_eq_true', decide_eq_true_eq]
-    constructor
-    · rintro ((h | h) | h) hf
-      · rw [hf] at h; cases h
-      · exact Or.inl h
-      · exact Or.inr h
-    · intro h
-      cases hf : s.b.hasfp with
-      | false => exact Or.inl (Or.inl rfl)
-      | true => rcases h hf with h | h
-                · exact Or.inl (Or.inr h)
-                · exact Or.inr h
-  | getLine => simp [safeB, SafeOp]
-  | fetchLine => simp [safeB, SafeOp]
-  | fetchLineStr => simp [safeB, SafeOp]
-  | getToken sep => simp [safeB, SafeOp]
-  | fetchToken sep => simp [safeB, SafeOp]
-  | fetchTokenStr sep => simp [safeB, SafeOp]
-  | read k => simp [safeB, SafeOp]
-  | get => simp [safeB, SafeOp]
-  | getOffset => simp [safeB, SafeOp]
-  | raiseAnchor o => simp [safeB, SafeOp]
+  | setOffset o => simp [callerOkB, CallerOk]
+  | setAnchor o => simp [callerOkB, CallerOk]
+  | setStableAnchor o => simp [callerOkB, CallerOk]
+  | getLine => simp [callerOkB, CallerOk]
+  | fetchLine => simp [callerOkB, CallerOk]
+  | fetchLineStr => simp [callerOkB, CallerOk]
+  | getToken sep => simp [callerOkB, CallerOk]
+  | fetchToken sep => simp [callerOkB, CallerOk]
+  | fetchTokenStr sep => simp [callerOkB, CallerOk]
+  | read k => simp [callerOkB, CallerOk]
+  | get => simp [callerOkB, CallerOk]
+  | getOffset => simp [callerOkB, CallerOk]
+  | raiseAnchor o => simp [callerOkB, CallerOk]
+
+instance (s : Sess) (op : Op) : Decidable (CallerOk s op) := decidable_of_iff _ (callerOkB_iff s op)
 
 end EaselModel.Buffer
